@@ -1,5 +1,5 @@
 (* C01/Props.v : property C01 (index / execution part).  Statements only; proofs are in
-   ProofsSV / ProofsCtrl / ProofsRun / ProofsFused.  Models: C01/Model.v, spec: C01/Spec.v + Base/Mat.v.
+   ProofsSV / ProofsCtrl / ProofsRun / ProofsFused / ProofsQueue.  Models: C01/Model.v, spec: C01/Spec.v + Base/Mat.v.
    All theorems are universally quantified over the carrier (any commutative semiring), the number
    of qubits, the qubit placement (any order, any adjacency), the matrix and the state.
    Inputs the real code rejects (and that the hypotheses exclude): duplicate / overlapping /
@@ -12,7 +12,7 @@
 From Coq Require Import List Bool Arith Lia.
 From Coq Require Import ZArith.
 From QV Require Import Base.Zi Base.Mat C01.Model C01.Spec C01.Lib C01.ProofsSV C01.ProofsCtrl C01.ProofsMat
-  C01.ProofsRun C01.ProofsFused.
+  C01.ProofsRun C01.ProofsFused C01.ProofsQueue.
 Import ListNotations.
 
 (* the einsum string of prepare_strings / apply_gate_string applies M to the named qubits *)
@@ -61,19 +61,29 @@ Theorem unitary_is_run : forall (T : Type) (K : ops T), semiring K ->
 Proof. exact @unitary_run_eq. Qed.
 Print Assumptions unitary_is_run.
 
-(* Circuits that contain FusedGates (the result of Circuit.fuse).  The full statement
-     forall queue, mvmul (unitary_queue n q) v = execute_queue n q v
-   is FALSE of the faithful model of Circuit.unitary (it skips every SpecialGate, FusedGate included);
-   it holds for queues of elementary gates only. *)
-Theorem unitary_queue_ok_partial : forall (T : Type) (K : ops T), semiring K ->
-  forall n (gs : list gate) (v : vec T), Forall (gate_wf n) gs -> Forall (gate_shape_ok) gs ->
-  length v = 2 ^ n ->
-  mvmul K (unitary_queue K n (map (fun g => QGate g) gs)) v = execute_queue K n (map (fun g => QGate g) gs) v.
-Proof. exact @unitary_queue_elementary. Qed.
-Print Assumptions unitary_queue_ok_partial.
+(* Circuits whose queue contains FusedGates (the result of Circuit.fuse): elementary gates and
+   FusedGate(sorted target_qubits, member gates).  A FusedGate executes matrix_fused on its qubit
+   subset; the repaired Circuit.unitary includes the members of every FusedGate.
+   item_ok: elementary gates are well formed; a FusedGate has strictly increasing in-range
+   target_qubits and well-formed members whose qubits lie in them. *)
+Theorem fused_gate_ok : forall (T : Type) (K : ops T), semiring K ->
+  forall n fq (gs : list (gate (T:=T))), incr_from 0 fq -> (forall q, In q fq -> q < n) ->
+  Forall (member_ok n fq) gs ->
+  embed K n fq (matrix_fused K fq gs) = circ_op K n gs.
+Proof. exact @embed_matrix_fused. Qed.
+Print Assumptions fused_gate_ok.
 
-Theorem unitary_queue_refuted :
-  exists n (q : list (qitem (T:=Zi))) (v : vec Zi), length v = 2 ^ n /\
-    mvmul Ziops (unitary_queue Ziops n q) v <> execute_queue Ziops n q v.
-Proof. exact unitary_queue_counterexample. Qed.
-Print Assumptions unitary_queue_refuted.
+Theorem execute_queue_ok : forall (T : Type) (K : ops T), semiring K ->
+  forall n (q : list qitem) (v : vec T), Forall (item_ok n) q -> length v = 2 ^ n ->
+  execute_queue K n q v = mvmul K (circ_op K n (flatten q)) v.
+Proof.
+  intros T K HK n q v Hok Hv. rewrite (execute_queue_flatten K HK) by assumption.
+  apply (execute_eq K HK); [|assumption]. now apply (flatten_ok n q).
+Qed.
+Print Assumptions execute_queue_ok.
+
+Theorem unitary_queue_ok : forall (T : Type) (K : ops T), semiring K ->
+  forall n (q : list qitem) (v : vec T), Forall (item_ok n) q -> length v = 2 ^ n ->
+  mvmul K (unitary_queue K n q) v = execute_queue K n q v.
+Proof. exact @unitary_queue_eq. Qed.
+Print Assumptions unitary_queue_ok.
